@@ -290,6 +290,42 @@ def rule_r2(ck, prog, suffix, g_add, rd_add, full_rel, f_add):
                     lin = linear(g, rd, f, news[0]['size'], p.ctx)
                     ok = lin == {'param:max_size': 1, '1': 1}
                     ck.verdict(ok, 'C11.R2', f, 'storage-size', news[0], 'data_ has %s slots' % fmt(lin) + ('' if ok else ' (expected max_size+1 = capacity_)'))
+    # the publishing CAS advances HEAD by exactly one: desired = expected + 1 (of the head snapshot the slot index was taken from)
+    cas = [p for p in g_add.points if p.n is not None and atomic_op(p.n) and atomic_op(p.n)[1] in ('compare_exchange_weak', 'compare_exchange_strong') and
+           path_str(access_path(p.f, p.n['obj'], p.ctx)) == 'this.head_' and len(p.n.get('args', [])) >= 2]
+    for p in cas:
+        exp = linear(g_add, rd_add, p.f, p.n['args'][0], p.ctx)
+        des = linear(g_add, rd_add, p.f, p.n['args'][1], p.ctx)
+        if exp is None or des is None:
+            ck.inconclusive('C11.R2', p.f, 'head-advances-by-one', p.n, 'expected / desired value of the publishing CAS is not linear')
+            continue
+        diff = dict(des)
+        for k_, v_ in exp.items():
+            diff[k_] = diff.get(k_, 0) - v_
+        diff = {k_: v_ for k_, v_ in diff.items() if v_ != 0}
+        ok = diff == {'1': 1}
+        ck.verdict(ok, 'C11.R2', p.f, 'head-advances-by-one', p.n, 'desired = expected + 1' if ok else
+                   'the publishing CAS moves head_ from %s to %s: one stored element has to advance head_ by exactly one (otherwise size() counts slots that hold nothing / loses elements)' % (fmt(exp), fmt(des)))
+    # empty() agrees with size() == 0: it is the equality of the two counters
+    for f in prog.functions(suffix + '::empty'):
+        g = Graph(prog, f, inline=None, sync_lambdas=False)
+        rd = reaching_defs(g)
+        rets = [r for r in g.returns() if r.n.get('e') is not None and r.n['e'] >= 0]
+        if len(rets) != 1:
+            ck.inconclusive('C11.R2', f, 'empty-iff-size-zero', None, 'empty() has more than one return')
+            continue
+        rel = relation(g, rd, f, rets[0].n['e'], rets[0].ctx, True)
+        if rel is None:
+            e = strip_casts(f, rets[0].n['e'])
+            if e['k'] == 'binop' and e['op'] == '==' and any(f.nodes[j]['k'] == 'call' and strip_targs(f.nodes[j].get('c', '')).endswith('::size') for j in f.subtree(e['i'])) and \
+                    any(f.nodes[j].get('v') == 0 for j in f.subtree(e['i'])):
+                ck.holds('C11.R2', f, 'empty-iff-size-zero', rets[0].n, 'empty() is size() == 0')
+            else:
+                ck.inconclusive('C11.R2', f, 'empty-iff-size-zero', rets[0].n, 'the result of empty() is not a linear relation of the counters')
+            continue
+        ok = rel[0] == '==0' and rel[1] in (frozenset({('this.head_', 1), ('this.tail_', -1)}), frozenset({('this.head_', -1), ('this.tail_', 1)}))
+        ck.verdict(ok, 'C11.R2', f, 'empty-iff-size-zero', rets[0].n, 'empty() <=> head_ == tail_' if ok else
+                   'empty() is true when %s, size() is zero when head_ == tail_: a consumer that waits on "not empty" misses elements the queue holds (or spins on an empty one)' % rel_str(rel))
     # Consume advances TAIL by exactly n, once
     for f in prog.functions(suffix + '::Consume'):
         if len(f.params) != 2:
